@@ -1,4 +1,5 @@
 import Pms.Props.C03
+import Pms.Props.C03Mod
 
 #print axioms Pms.Gr.C03_columns
 #print axioms Pms.Gr.C03_selectors
@@ -13,3 +14,4 @@ import Pms.Props.C03
 #print axioms Pms.Gr.C03_bin_membership
 #print axioms Pms.Gr.C03_bin_unique
 #print axioms Pms.Gr.C03_hypotheses_satisfiable
+#print axioms Pms.ModShape.C03_module_shape
